@@ -35,6 +35,7 @@ type csim struct {
 	died    []trace.M
 	trig    bool
 	notes   []string
+	failWhy string
 	snapMax uint64
 }
 
@@ -99,6 +100,13 @@ func (s *csim) pickVictim(role string) int {
 	return 1 + s.rng.Intn(s.cl.n)
 }
 
+func (s *csim) whyIf(failed bool) string {
+	if failed {
+		return s.failWhy
+	}
+	return ""
+}
+
 func (s *csim) survivors(victim int) []int {
 	var out []int
 	for i := 1; i <= s.cl.n; i++ {
@@ -147,12 +155,17 @@ func (s *csim) restart(victim int, env ...string) (*vchild, string, error) {
 		var st nodeStatus
 		if json.Unmarshal([]byte(ln[6:]), &st) == nil && st.SnapIndex > 0 && st.SnapVoters == 0 {
 			s.notes = append(s.notes, fmt.Sprintf("FAILED raft snapshot at index %d has an empty voter set", st.SnapIndex))
+			s.failWhy = "no-voters"
 			k.kill9()
 			return k, "failed", nil
 		}
 		return k, "ready", nil
 	case strings.HasPrefix(ln, "FAILED "):
 		s.notes = append(s.notes, ln)
+		s.failWhy = "start"
+		if strings.HasPrefix(ln, "FAILED initnamespace") {
+			s.failWhy = "engine-open" // NewKVNode could not open the engine's own directory
+		}
 		k.kill9()
 		return k, "failed", nil
 	case strings.HasPrefix(ln, "DIED "):
@@ -177,6 +190,7 @@ func (s *csim) restart(victim int, env ...string) (*vchild, string, error) {
 			}
 		}
 		s.notes = append(s.notes, "FAILED "+why)
+		s.failWhy = "exit"
 		return k, "failed", nil
 	}
 	k.kill9()
@@ -209,7 +223,7 @@ func (s *csim) cleanRestartAndCheck(victim int, phase2 int) (bool, error) {
 	if res != "ready" && res != "failed" {
 		return false, envErr("unexpected " + res)
 	}
-	s.h.add(trace.M{"ev": "restarted", "n": victim, "ok": res == "ready"})
+	s.h.add(trace.M{"ev": "restarted", "n": victim, "ok": res == "ready", "why": s.whyIf(res != "ready")})
 	if res == "failed" {
 		return false, nil
 	}
@@ -384,7 +398,7 @@ func crashsim(args []string) error {
 			return fail(err)
 		}
 		if res == "failed" {
-			s.h.add(trace.M{"ev": "restarted", "n": victim, "ok": false})
+			s.h.add(trace.M{"ev": "restarted", "n": victim, "ok": false, "why": s.failWhy})
 			restartOK = false
 			break
 		}
@@ -411,7 +425,7 @@ func crashsim(args []string) error {
 			restartOK = ok
 		} else {
 			// the hook was not reached during this restart: it simply is a restart after a kill
-			s.h.add(trace.M{"ev": "restarted", "n": victim, "ok": true})
+			s.h.add(trace.M{"ev": "restarted", "n": victim, "ok": true, "why": ""})
 			if err := s.barrierAndDump(); err != nil {
 				return fail(err)
 			}
@@ -441,7 +455,7 @@ func crashsim(args []string) error {
 					return fail(err)
 				}
 				if res == "failed" {
-					s.h.add(trace.M{"ev": "restarted", "n": victim, "ok": false})
+					s.h.add(trace.M{"ev": "restarted", "n": victim, "ok": false, "why": s.failWhy})
 					restartOK = false
 					break
 				}
@@ -451,7 +465,7 @@ func crashsim(args []string) error {
 					s.recordDied(victim, pp, kk, "crash")
 					continue
 				}
-				s.h.add(trace.M{"ev": "restarted", "n": victim, "ok": true})
+				s.h.add(trace.M{"ev": "restarted", "n": victim, "ok": true, "why": ""})
 				var all []int
 				for i := 1; i <= cl.n; i++ {
 					all = append(all, i)
